@@ -5,7 +5,7 @@ alive at once (the interleaving of operations on different models is the schedul
 joins / leaves injected. Behind a per-run switch (on in ~15% of runs) components are attached /
 detached WHILE the agent is resident, with or without the manual register / deregister call; the
 divergences this produces on the current tree are the listed known findings F1, F2, F3, F6."""
-from ECAgent.Core import Agent, AgentNotFoundError, Component, DuplicateAgentError, Model
+from ECAgent.Core import Agent, AgentNotFoundError, Component, DuplicateAgentError, Model, System
 from ECAgent.Environments import PositionComponent
 
 from .worlds import RefWorld, gen_world, make_world
@@ -19,14 +19,14 @@ RULE = ("1-3 models, each with a plain Environment or a SpaceWorld / DiscreteWor
         "models; in ~15% of runs also attach / detach while resident with or without manual (de)registration; "
         "non-trivial = >=2 component types in use, >=1 agent left while another agent with one of its types stayed, and "
         ">=1 re-join; distinct = sequence of (model, op, per-type listing sizes)"
-        "; also: models stepped / completed in mid-history, worlds that are not model.environment, a container-like component that is falsy while empty")
+        "; also: models stepped / completed in mid-history, worlds that are not model.environment, a container-like component that is falsy while empty, joins / leaves / re-joins issued by a System from inside a running timestep")
 COMPONENTS = {"real": ["ECAgent.Core.Environment.add_agent / remove_agent", "SystemManager.register_component / "
                        "deregister_component / get_components / __getitem__", "Agent.add_component / remove_component",
                        "SpaceWorld / DiscreteWorld / LineWorld / GridWorld add_agent / remove_agent"],
               "stub": ["component classes and agents are harness-defined"]}
 PROBES = ["pool_deleted_and_recreated", "leave_from_middle", "two_models_same_type", "spatial_join_leave", "rejoin",
           "attach_after_leaving", "subclass_component", "resident_touch_run", "manual_register", "reject_join", "reject_leave",
-          "model_completed_then_join_leave", "falsy_component_emptied"]
+          "model_completed_then_join_leave", "falsy_component_emptied", "ops_from_inside_a_timestep"]
 TECHNIQUE = "deterministic simulation: seeded join/leave/attach/detach histories interleaved over several live models vs a per-model mirror reference; known-finding classifier for resident attach/detach"
 LEVEL_TEXT = ("Seeded search over join/leave/attach/detach histories on 1-3 live models; after every operation, for every "
               "component type and every model, the exposed listing must be element-wise identical (objects, joining order) to "
@@ -72,6 +72,19 @@ class CF(Component):
 
 
 CT = [CA, CB, CC, CD, CE, CF]
+INSTEP_OPS = ("join", "leave", "query", "join_dup", "leave_ghost", "fill")
+
+
+class Runner(System):
+    """Harness system: performs scripted membership operations from inside the timestep (each followed by the full check)."""
+
+    def __init__(self, model):
+        super().__init__("c03-runner", model)
+        self.todo, self.apply = [], None
+
+    def execute(self):
+        while self.todo:
+            self.apply(self.todo.pop(0))
 
 
 def generate(rng, tier):
@@ -109,6 +122,22 @@ def generate(rng, tier):
             ops.append({"m": mi, "op": "fill", "k": k, "n": rng.choice([0, 0, 1, 2])})
         else:
             ops.append({"m": mi, "op": "join_dup", "k": k})
+    # some stretches of the history are issued by a System from inside a running timestep (drawn last: older fields keep their stream)
+    for _ in range(rng.choice([0, 0, 0, 1, 1, 2])):
+        mi = rng.randrange(nm)
+        sub = []
+        for _ in range(rng.randint(1, 5)):
+            k = rng.randrange(nag[mi])
+            r = rng.random()
+            if r < 0.4:
+                sub.append({"op": "leave", "k": k})
+            elif r < 0.8:
+                sub.append({"op": "join", "k": k, "frac": [rng.random() for _ in range(3)]})
+            elif r < 0.9:
+                sub.append({"op": "query", "t": rng.randrange(6)})
+            else:
+                sub.append({"op": rng.choice(["join_dup", "leave_ghost"]), "k": k})
+        ops.insert(rng.randint(0, len(ops)), {"m": mi, "op": "instep", "sub": sub})
     return {"worlds": worlds, "agents": nag, "touch": touch, "ops": ops}
 
 
@@ -120,6 +149,7 @@ class M:
         self.agents = [Agent(f"m{idx}a{k}", self.model) for k in range(n)]
         self.residents = []        # agent indices in joining order
         self.left_once = set()
+        self.runner = None
 
 
 def execute(sc, ctx):
@@ -189,11 +219,27 @@ def execute(sc, ctx):
         if len(models) >= 2 and any(types_here[i] & types_here[j] for i in range(len(models)) for j in range(i)):
             ctx.probe("two_models_same_type")
 
-    for op in sc["ops"]:
+    def apply(op):
         mi = op["m"] % len(models)
         mm = models[mi]
         kind = op["op"]
         sm = mm.model.systems
+        if kind == "instep":
+            # the sub-operations are issued by a System from inside a running timestep of this model
+            if not mm.model.is_running() or not op.get("sub"):
+                return
+            if mm.runner is None:
+                mm.runner = Runner(mm.model)
+                ctx.expect_ok("add-runner", sm.add_system, mm.runner)
+            mm.runner.todo = [dict(o, m=mi) for o in op["sub"] if o.get("op") in INSTEP_OPS]
+            mm.runner.apply = apply
+            ctx.probe("ops_from_inside_a_timestep")
+            st, v = ctx.call(mm.model.execute)
+            if st != "ok":
+                ctx.fail("step:unexpected-exception", f"{type(v).__name__}: {v}")
+            ctx.check(not mm.runner.todo, "runner-did-not-run", "the harness system was not executed in a running model's step")
+            check_all("after-instep")
+            return
         if kind in ("join", "leave", "attach", "detach", "join_dup"):
             k = op["k"] % len(mm.agents)
             a = mm.agents[k]
@@ -201,9 +247,9 @@ def execute(sc, ctx):
             T = CT[op["t"] % 6]
             resident = k in mm.residents
             if T in a.components:
-                continue
+                return
             if resident and not touch:
-                continue
+                return
             c = T(a, mm.model)
             ctx.expect_ok("attach", a.add_component, c)
             if T is CD:
@@ -222,9 +268,9 @@ def execute(sc, ctx):
             T = CT[op["t"] % 6]
             resident = k in mm.residents
             if T not in a.components:
-                continue
+                return
             if resident and not touch:
-                continue
+                return
             c = a.components[T]
             how = op.get("manual", "no") if resident else "no"
             if resident:
@@ -244,7 +290,7 @@ def execute(sc, ctx):
             ctx.event("detach", mi, k, T.__name__, resident, how)
         elif kind == "join":
             if k in mm.residents:
-                continue
+                return
             args = ()
             if mm.ref.spatial:
                 p = [min(int(op["frac"][ax] * (mm.ref.hi(ax) + 1)), max(mm.ref.hi(ax), 0)) if mm.ref.positive(ax) else 0
@@ -264,7 +310,7 @@ def execute(sc, ctx):
             ctx.event("join", mi, k)
         elif kind == "leave":
             if k not in mm.residents:
-                continue
+                return
             idx = mm.residents.index(k)
             if 0 < idx < len(mm.residents) - 1:
                 ctx.probe("leave_from_middle")
@@ -287,7 +333,7 @@ def execute(sc, ctx):
             ctx.expect_raises("leave-unknown", AgentNotFoundError, mm.env.remove_agent, "nobody")
         elif kind == "join_dup":
             if k not in mm.residents:
-                continue
+                return
             ctx.fault("reject.dup_agent")
             ctx.probe("reject_join")
             twin = Agent(a.id, mm.model)
@@ -314,5 +360,7 @@ def execute(sc, ctx):
         sizes = [len(ref_listing(mm, T)) for T in CT]
         shape.append([mi, kind, sizes])
         ctx.state([[len(x.residents) for x in models], mi, kind, sizes])
+    for op in sc["ops"]:
+        apply(op)
     ctx.nontrivial = len(flags["types"]) >= 2 and flags["left_while_shared"] and flags["rejoin"]
     ctx.sig = shape[:80]
